@@ -2,6 +2,7 @@
 
 A case is {"target": PV, "expr": E}:
   PV  tree value (lean/Glom/Py/PV.lean JSON shape): null | {"b":…} | {"i":…} | {"s":…} | {"f":hex}
+      (Lean side only: {"f":"?"} — a float whose value the kernel does not reproduce)
       | {"l":[…]} | {"t":[…]} | {"d":[[k,v]…]} | {"fn":name} | {"o":[cls,[[attr,v]…]]}
       (cls "Obj"/"Obj2": plain attribute objects, "slice": slice(start, stop, step),
        "<bound>": a bound method of a builtin value)
@@ -26,7 +27,7 @@ LEAN_MODULES = ['Glom.Props.C02']
 FACT_FILES = ['TFacts', 'ExcFacts']
 READY = True
 MANIFEST = dict(
-    text="Lean 4 theorems, for every value type, every state type and every primitive semantics `prim` of getattr/subscription/arithmetic/calls — each operation takes a state and returns the state it leaves, so calls may CHANGE the target — (a parameter, so the statement is about glom's record-and-replay logic), every target, every start state and every T expression of any length and nesting of T / Spec(T) / list / tuple / dict arguments: `_t_eval` on the object recorded by the TType overloads (flat tuple, index stepping by 2, branch table, arg_val on every argument INSIDE the loop against the original target object in its current state, the recorded (args, kwargs) of a call handed unevaluated to Call, which evaluates callee / arguments / keyword arguments once and calls) equals the chain of operations applied directly, left to right, as a pair (outcome, state left) — also when it ends with an error (`c02_replay`); the first failing attribute/item/arithmetic step is PathAccessError(position), a failing call keeps its class (`c02_error_classes`); a nested argument is evaluated on the original target object in the state left by the operations before it (`c02_args_from_root`); evaluating all arguments in front of the loop is NOT equivalent (`c02_hoisted_args_counterexample`); the callee of a recorded call receives the very objects its arguments evaluate to, each evaluated exactly once (`c02_call_by_reference`, `c02_args_evaluated_once`; the code shape before /repo commit db9b8f7, a second arg_val pass, does not replay: `c02_second_pass_counterexample`); per-run facts obligation `c02_facts_wf` by `decide` on the tables regenerated from /repo: every op char recorded by a TType overload has a `_t_eval` branch performing the operation its dunder denotes (no recorded operation is dropped). Model tied to the code by a three-way differential check: real glom vs the same chain applied with Python's own operators vs the compiled Lean model/reference (instance: values with object identity in a heap), comparing outcome, identity of the result object (its alias path in the target) AND the target object afterwards.",
+    text="Lean 4 theorems, for every value type, every state type and every primitive semantics `prim` of getattr/subscription/arithmetic/calls — each operation takes a state and returns the state it leaves, so calls may CHANGE the target — (a parameter, so the statement is about glom's record-and-replay logic), every target, every start state and every T expression of any length and nesting of T / Spec(T) / list / tuple / dict arguments: `_t_eval` on the object recorded by the TType overloads (flat tuple, index stepping by 2, branch table, arg_val on every argument INSIDE the loop against the original target object in its current state, the recorded (args, kwargs) of a call handed unevaluated to Call, which evaluates callee / arguments / keyword arguments once and calls) equals the chain of operations applied directly, left to right, as a pair (outcome, state left) — also when it ends with an error (`c02_replay`); the first failing attribute/item/arithmetic step is PathAccessError(position) — for an arithmetic step whatever the right operand is, for TypeError, ZeroDivisionError, OverflowError and ValueError; the facts obligation demands that the branch's `except` clause covers these four (by the class or a base class, decided on the exception table extracted from Python) with a handler that converts unconditionally, `c02_conditional_handler_counterexample` —, a failing call keeps its class (`c02_error_classes`); a nested argument is evaluated on the original target object in the state left by the operations before it (`c02_args_from_root`); evaluating all arguments in front of the loop is NOT equivalent (`c02_hoisted_args_counterexample`); the callee of a recorded call receives the very objects its arguments evaluate to, each evaluated exactly once (`c02_call_by_reference`, `c02_args_evaluated_once`; the code shape before /repo commit db9b8f7, a second arg_val pass, does not replay: `c02_second_pass_counterexample`); per-run facts obligation `c02_facts_wf` by `decide` on the tables regenerated from /repo: every op char recorded by a TType overload has a `_t_eval` branch performing the operation its dunder denotes (no recorded operation is dropped). Model tied to the code by a three-way differential check: real glom vs the same chain applied with Python's own operators vs the compiled Lean model/reference (instance: values with object identity in a heap), comparing outcome, identity of the result object (its alias path in the target) AND the target object afterwards.",
     note="trusted: Lean kernel + {propext, Classical.choice, Quot.sound}; extractor (TType overloads, _t_eval branch table, except clauses, part_idx expression); harness/driver; Python's primitive semantics is a theorem parameter, its executable instance (Glom/Model/C02Heap.lean on top of C02Prim.lean: a heap of list/tuple/dict/object/slice/bound-method cells with identity, list.pop/append, dict.pop/setdefault/get, floor division, two's-complement bit ops, IEEE true division, slices, str/list/tuple/dict operations, a catalogue of callables) is validated on every case against CPython itself, including the final state of the target; hypothesis `PlainCallee` (the CALLEE of a recorded call is not a glom spec object stored in the target: Call.glomit passes the already evaluated callee through arg_val, a callable is a literal there; counter-example kept as theorem `c02_callee_eval_counterexample`; arguments need no hypothesis); the exemption `if op != '('` of the loop is a hard-coded character in the model, tied to the extracted branch table by the facts obligation `callCharOk` (the exempted character is the call branch's and only it); reading §6.1 (a failing call keeps its exception class; a failing nested T argument reports its own position); S/A roots, Path segments and wildcards are other properties.",
     technique='Lean 4 refinement proof (flat ops loop + arg_val recursion = direct application of the operator chain, generic in the primitive semantics) + facts obligation by decide + three-way differential correspondence',
     ref='DESIGN.md §3 C02, §6.1')
@@ -50,12 +51,36 @@ RULE = ('type-directed: a nested target (dict / list / tuple / attribute objects
         'argument followed by a read of the same container, a T object stored in the target passed as '
         '(keyword) argument or inside a list argument (must come back as that object, compared by repr). '
         'Targets are trees (no object reachable by two paths) — sharing only arises during evaluation. '
+        'Numbers of every type: targets carry floats (0.0, -0.0, 1.5, 1e308 …), a zero of some numeric type '
+        '(0 / False / 0.0 / -0.0), a mostly negative exponent and sometimes an int beyond the range of a double; '
+        'valid steps include int <op> float, float // % **, int ** negative. FAILING-ARITHMETIC STREAM (a fifth '
+        'of the cases, and 45% of the one-edit mutations on a number): the failing step is chosen by the CLASS '
+        'of error the plain Python operation raises on the value reached, for every class each operator can '
+        'raise on the modelled types — ZeroDivisionError (/ // % by a zero of any numeric type; ** of a zero '
+        'int / bool / float / -0.0 base to a negative int or float power: a non-zero right operand), TypeError '
+        '(foreign operand types, & | ^ ~ on floats, str % with too few / wrong arguments), OverflowError (float ** '
+        'big, an int beyond 2**1024 meeting a float on either side, int / int beyond the range of a double, '
+        'int ** negative with such a base, seq * an int beyond Py_ssize_t, "%c" % big), ValueError (str % x with a '
+        'malformed format) — with a literal or (probability 1/2) nested T / Spec(T) right operand read from the '
+        'original target; when the value reached cannot fail that way, one valid step in front makes it suitable '
+        '(x * 0, x + 10**400, s + "%"); the case is kept only when the chain applied directly in Python fails '
+        'at the intended position; operations behind the failing one are never reached. thorough: every '
+        'binary operator x 14 left operands x 16 right operands (zeros, negative / big exponents, huge ints, '
+        'foreign types) with literal and nested-T right operand. '
         'non-trivial = at least two operations, or a failing chain, or a nested T argument; '
         'distinct = distinct (target, expression)')
 TRUSTED = ['Glom/Model/C02Prim.lean (executable instance of the primitive semantics) is validated against '
            'CPython on every generated case (third leg of the comparison), not verified',
-           'strings are ASCII; floats arise only from `/` (compared by float.hex()); int ** negative, '
-           'float // % **, str % x are outside the kernel (property still evaluated against Python\'s own result)']
+           'strings are ASCII; floats are compared by float.hex(); + - * / and unary minus on floats, int / int and '
+           'float(int) for ints of any size (round-half-even by integer arithmetic), exact powers of two are '
+           'reproduced bit for bit; for float // %, x ** y through libm pow the kernel decides the CLASS of the '
+           'outcome (a float / ZeroDivisionError / OverflowError / TypeError) and returns an opaque float that '
+           'matches any float (observations are compared modulo opaque floats; the property itself is then '
+           'evaluated against Python\'s own result); x / opaque, opaque ** x, x ** opaque, a power within 0.01 of '
+           'the overflow threshold in log2, complex results, inf / nan operands of **, str % x are outside the '
+           'kernel (property still evaluated against Python\'s own result)',
+           'the extractor lists a class of an `except` clause of _t_eval only when the handler\'s whole body is '
+           '`pae = PathAccessError(e, Path(_t), <position>)`']
 ASSUMPTIONS = ['the CALLEE of a recorded call is not a glom spec object stored in the target (Call.glomit runs '
                'arg_val over the already evaluated callee: glom({"g": T["f"], "f": ident}, T["g"](1)) calls ident, '
                'target["g"](1) would build the expression T["f"](1)); stored T objects as ARGUMENTS are fine and '
